@@ -106,7 +106,9 @@ Seed(k, td) ==
                             Alt("n", TChoice(<< Alt("x", TNull), Alt("y", TOcts) >>)) >>)),
        Asg("Tn", Tg(TIntR(0, 255), "C", 5, "D")),
        Asg("Li", ListOf(Ref("Ch"))),
+       Asg("Tc", Cx(Ref("Ch"), 7)),
        Asg("Top", TSeq(<< Mand("c", Cx(Ref("Ch"), 1)), Opt("t", Ref("Tn")), Mand("u", Cx(Ref("Li"), 2)),
+                          Opt("d", Cx(Ref("Tc"), 8)),
                           Mand("l", ListOfSz(Ref("Tn"), 0, 3)),
                           Opt("k", Cx(TChoice(<< Alt("r", Ref("Tn")), Alt("s", Cx(Ref("Ch"), 6)) >>), 3)) >>)) >>) >>]
    [] k = 4 ->    \* (mutual) recursion through SEQUENCE OF, OPTIONAL and CHOICE
@@ -184,6 +186,17 @@ AutoOf(td, P) ==
   /\ P.k \in {"SEQ", "SET", "CHOICE"}
   /\ LET cs == IF P.k = "CHOICE" THEN AllAlts(P) ELSE AllMembers(P)
      IN \A i \in 1..Len(cs) : cs[i].t.tags = <<>>
+
+RECURSIVE NoAutoInside(_)
+\* no SEQUENCE / SET / CHOICE written in T (references not followed) would be tagged automatically
+\* if T stood in an AUTOMATIC TAGS module
+NoAutoInside(T) ==
+  CASE T.k \in {"SEQ", "SET"} -> /\ ~AutoOf("A", T)
+                                 /\ \A i \in 1..Len(AllMembers(T)) : NoAutoInside(AllMembers(T)[i].t)
+    [] T.k = "CHOICE" -> /\ ~AutoOf("A", T)
+                         /\ \A i \in 1..Len(AllAlts(T)) : NoAutoInside(AllAlts(T)[i].t)
+    [] T.k \in {"SEQOF", "SETOF"} -> NoAutoInside(T.e)
+    [] OTHER -> TRUE
 
 \* the construct that directly contains position p (the assignment itself for p = <<>>)
 ParentAt(T, p) == IF p = <<>> THEN TNull ELSE GetAt(T, Front(p))
@@ -276,7 +289,7 @@ InlinePlan(arr, mi, ai, p) ==
       U == [C EXCEPT !.tags = R.tags \o @]
       T2 == SetAt(T, p, U)
   IN [U |-> U, T2 |-> T2, namesOk |-> \A u \in uses : nameOk(u), imports |-> Force(newImports),
-      before |-> ParentAt(T, p), after |-> ParentAt(T2, p), td |-> mod.td]
+      before |-> ParentAt(T, p), after |-> ParentAt(T2, p), td |-> mod.td, fromTd |-> hmod.td]
 
 \* side conditions under which Inline keeps the meaning
 InlineOk(pl) ==
@@ -285,6 +298,10 @@ InlineOk(pl) ==
   \* a tagged definition copied into an automatically tagged construct would switch
   \* automatic tagging off for all its components (X.680 25.9)
   /\ Mutation = "InlineIgnoresAutomaticTagging" \/ AutoOf(pl.td, pl.before) = AutoOf(pl.td, pl.after)
+  \* a definition from a module without automatic tagging cannot be written inside an AUTOMATIC TAGS
+  \* module if that would tag its components automatically (writing tags out cannot prevent it)
+  /\ \/ Mutation = "InlineIntoAutomaticModule"
+     \/ (pl.td = "A" /\ pl.fromTd # "A") => NoAutoInside(pl.U)
 
 \* merge import clauses (same source module: one clause)
 AddImports(imp, more) ==
@@ -346,7 +363,7 @@ SplitModule ==
        LET n == Len(gArr.mods[mi].asg) IN
        \E S \in SUBSET (1..n) :
           /\ S # {} /\ S # 1..n
-          /\ Cardinality(S) <= 2 \/ Cardinality(S) = n - 1
+          /\ Cardinality(S) <= 2
           /\ Step(Act("SplitModule", mi, 0, <<>>, FALSE, SetToSeq(S)), SplitOf(gArr, mi, S))
 
 Inline ==
@@ -388,30 +405,6 @@ Spec == Init /\ [][Next]_vars
 
 ------------------------------------------------------------------------------
 (* model-level properties                                                   *)
-
-RECURSIVE TreeEq(_, _)
-\* equality of meaning trees, kind first so that values of different sorts are never compared
-TreeEq(a, b) ==
-  /\ a.k = b.k
-  /\ a.tags = b.tags
-  /\ CASE a.k \in {"SEQ", "SET"} ->
-            /\ a.ext = b.ext
-            /\ Len(a.root) = Len(b.root)
-            /\ Len(a.adds) = Len(b.adds)
-            /\ LET ma == AllMembers(a)  mb == AllMembers(b) IN
-               /\ Len(ma) = Len(mb)
-               /\ \A i \in 1..Len(ma) :
-                    /\ ma[i].n = mb[i].n /\ ma[i].q = mb[i].q
-                    /\ TreeEq(ma[i].t, mb[i].t)
-                    /\ ma[i].q = "D" => ma[i].d = mb[i].d
-            /\ \A i \in 1..Len(a.adds) : a.adds[i].g = b.adds[i].g /\ Len(a.adds[i].ms) = Len(b.adds[i].ms)
-       [] a.k = "CHOICE" ->
-            /\ a.ext = b.ext
-            /\ Len(a.root) = Len(b.root)
-            /\ Len(a.adds) = Len(b.adds)
-            /\ \A i \in 1..Len(AllAlts(a)) : AllAlts(a)[i].n = AllAlts(b)[i].n /\ TreeEq(AllAlts(a)[i].t, AllAlts(b)[i].t)
-       [] a.k \in {"SEQOF", "SETOF"} -> a.sz = b.sz /\ TreeEq(a.e, b.e)
-       [] OTHER -> a = b
 
 \* the invariant of C19 on the model: no action changes what the probe type means.
 \* MeaningPreservedStep is the statement; MeaningPreserved is the same by induction over the
